@@ -1,6 +1,10 @@
 package broker
 
-import "context"
+import (
+	"context"
+
+	"github.com/twmb/franz-go/pkg/kmsg"
+)
 
 // C15 — group state survives coordinator failover.
 
@@ -52,7 +56,28 @@ func VsymC15_Failover() {
 		for _, id := range w.currentMembers() {
 			hb := kmsgHeartbeat(id, a.generationID)
 			vsym_Assert(bc.Heartbeat(context.Background(), hb).ErrorCode == 0, "C15/stable-member-heartbeat-ok-after-failover")
+			// a (re)sync in the current generation gets the same assignment from both coordinators,
+			// also for a member whose assignment is empty
+			sr := kmsg.NewPtrSyncGroupRequest()
+			sr.Group, sr.MemberID, sr.Generation = vsymGroup, id, a.generationID
+			oldResp, errA := w.c.SyncGroup(context.Background(), sr)
+			newResp, errB := bc.SyncGroup(context.Background(), sr)
+			vsym_Assert(errA == nil && errB == nil && oldResp.ErrorCode == 0, "C15/setup-sync")
+			vsym_Assert(newResp.ErrorCode == 0, "C15/stable-member-sync-ok-after-failover")
+			vsym_Assert(vsym_BytesEq(newResp.MemberAssignment, oldResp.MemberAssignment) && len(newResp.MemberAssignment) == len(oldResp.MemberAssignment), "C15/assignments-preserved")
 		}
+	}
+	// a rebalance that only waits for the leader's sync is not set back: everybody who has joined
+	// the generation is still counted as joined
+	if a.state == groupStateCompletingRebalance {
+		vsym_Reach("completing")
+		for id, ma := range a.members {
+			if ma.joinGeneration == a.generationID {
+				vsym_Assert(b.members[id].joinGeneration == b.generationID, "C15/rejoined-member-still-rejoined-after-failover")
+			}
+		}
+		// (the restored coordinator arms a fresh rebalance deadline; that is harmless as long as
+		// nobody is counted as a lagger, which is what is asserted above)
 	}
 	// the new coordinator never completes a rebalance the old one would not have completed
 	if a.state == groupStatePreparingRebalance {
